@@ -562,5 +562,43 @@ m('readrows-limit-counter-reset-on-flush','C03',BT,
 				count = 0
 			}
 			return true''','R08/ReadRows/limit-counter-survives-the-flush','rows_limit is enforced per flushed batch instead of per request')
+# ---- C20 / batch (R60)
+BATCH='storage/gcsemu/batch.go'
+m('batch-skips-part-without-content','C20',BATCH,
+  '''		rsp := rw.Result()
+		rsp.ContentLength = int64(rw.Body.Len())
+''','''		rsp := rw.Result()
+		rsp.ContentLength = int64(rw.Body.Len())
+		if rsp.ContentLength == 0 && rsp.StatusCode == http.StatusNoContent {
+			continue
+		}
+''','R60/batch/dispatch#1/every-iteration/create-part','a sub-request answered 204 gets no part: the client waits for a response to that content id')
+m('batch-recorder-hoisted','C20',BATCH,
+  '''	for i := range reqs {
+		req, contentId := reqs[i], contentIds[i]
+
+		rw := httptest.NewRecorder()
+''','''	rw := httptest.NewRecorder()
+	for i := range reqs {
+		req, contentId := reqs[i], contentIds[i]
+
+''','R60/batch/dispatch#1/fresh-recorder','every later part repeats the earlier sub-responses')
+m('batch-content-id-only-when-present','C20',BATCH,
+  '''		reqs = append(reqs, req)
+		contentIds = append(contentIds, contentId)''','''		reqs = append(reqs, req)
+		if contentId != "" {
+			contentIds = append(contentIds, contentId)
+		}''','R60/batch/dispatch#1/lockstep','the content ids drift against the requests after the first part without an id (and the index runs out of range)')
+m('batch-close-skipped-when-empty','C20',BATCH,
+  '''	if err := mw.Close(); err != nil {
+		g.log(err, "failed to close")
+		return
+	}''','''	if len(reqs) == 0 {
+		return
+	}
+	if err := mw.Close(); err != nil {
+		g.log(err, "failed to close")
+		return
+	}''','R60/batch/dispatch#1/closing-boundary','an empty batch is answered without the closing boundary')
 json.dump(M, open('/verif/mutants.json','w'), indent=1)
 print(len(M),'mutants')
